@@ -89,7 +89,11 @@ pub fn shard(ctx: &Ctx, spec: &Spec) -> Shard {
         (spec.tweak_cfg)(&mut cfg, &mut rng);
         // a quarter of the histories: small record limit, the background worker rotates the active blob by itself
         if rng.chance(1, 4) {
-            cfg.max_records = Some(rng.range(1, 5));
+            if rng.chance(1, 2) {
+                cfg.max_records = Some(rng.range(1, 5));
+            } else {
+                cfg.max_blob_size = Some(rng.range(100, 900));
+            }
             cfg.auto_rotate = true;
             sh.add("histories_auto_rotation", 1);
         }
